@@ -154,7 +154,7 @@ int wanttype;
 
  if (rrtype == wanttype)
   {
-   if (rrdlen < 4)
+   if (rrdlen < 4 || responseend - responsepos < 4)
      return DNS_SOFT;
    ip.d[0] = responsepos[0];
    ip.d[1] = responsepos[1];
@@ -192,7 +192,7 @@ int wanttype;
 
  if (rrtype == wanttype)
   {
-   if (rrdlen < 3)
+   if (rrdlen < 3 || responseend - responsepos < 3)
      return DNS_SOFT;
    pref = (responsepos[0] << 8) + responsepos[1];
    if (dn_expand(response.buf,responseend,responsepos + 2,name,MAXDNAME) < 0)
